@@ -2,7 +2,7 @@
    merges are monotone.  Only statements, each closed by [exact] of a lemma
    proved in Proofs/DNS*.v. *)
 From PV Require Import Base.Prelude Base.Slice Model.DNS Model.DNSMerge Model.DNSRecords Model.DNSNbns
-     Spec.RFC1035 Proofs.RFC1035 Proofs.DNS Proofs.DNSMerge Proofs.DNSRecords.
+     Spec.RFC1035 Proofs.RFC1035 Proofs.DNS Proofs.DNSMerge Proofs.DNSRecords Proofs.DNSSpec.
 Open Scope N_scope.
 
 (* ------------------------------------------------------------------ *)
@@ -121,6 +121,65 @@ Theorem C17_reference_decoder_correct : forall msg off ls next, bytes_ok msg ->
   ref_decode msg off = Some (ls, next) <-> name_at msg off ls next.
 Proof. exact ref_decode_iff. Qed.
 Print Assumptions C17_reference_decoder_correct.
+
+(* ------------------------------------------------------------------ *)
+(* Question and records against the RFC 1035 reference (Spec/RFC1035.v: [u16_at], [ref_rr_at],
+   [ref_rrs], [learn], [learn_all] = insert-if-absent, the library's documented convention). *)
+
+(* DecodeQuestion returns the name, type and class that are in the message (within len(p)) *)
+Theorem C17_question_sound : forall p index buffer q off,
+  wf p -> bytes_ok (arr p) -> (12 <= len p)%nat ->
+  decodeQuestion p index buffer = Ok (q, off) ->
+  (0 <= index)%Z /\
+  exists ls n, name_at (view p) (Z.to_nat index) ls n /\ q_name q = dotted ls /\
+               u16_at (view p) n = Some (q_type q) /\ u16_at (view p) (n + 2) = Some (q_class q) /\
+               off = (n + 4)%nat.
+Proof. exact question_sound. Qed.
+Print Assumptions C17_question_sound.
+
+(* every question with a name of 1..127 labels (at most 256 octets, at most 254 pointers) in a
+   message with QDCOUNT = 1 is decoded, with the reference's name, type, class and end offset *)
+Theorem C17_question_complete : forall p index buffer d ls n t c,
+  wf p -> bytes_ok (arr p) -> (12 <= len p)%nat ->
+  u16_at (view p) 4 = Some 1 ->
+  name_at_d (view p) d index ls n -> (d <= 254)%nat -> (wire_len ls <= 256)%nat -> ls <> [] ->
+  u16_at (view p) n = Some t -> u16_at (view p) (n + 2) = Some c ->
+  decodeQuestion p (Z.of_nat index) buffer = Ok (mkQ (dotted ls) t c, (n + 4)%nat).
+Proof. exact question_complete. Qed.
+Print Assumptions C17_question_complete.
+
+(* C17_records, PARTIAL: DecodeAnswers (the record part of ProcessDNS) stores exactly what the
+   reference learns from the answer section, merged first-wins into the previous entry, and reports
+   whether anything was added.  Proved for answer sections WITHOUT PTR records.
+   Missing (covered by the correspondence only: Coq reference as spec column + dnsmessage oracle):
+   PTR records (the library parses the dotted owner with net.ParseIP, the reference reads the labels);
+   the composition with the DNSTable update of ProcessDNS. *)
+Theorem C17_records_partial : forall p off buffer e lim an rrs endoff,
+  wf p -> bytes_ok (arr p) -> (12 <= len p)%nat -> (lim <= 256)%nat ->
+  u16_at (view p) 6 = Some an ->
+  ref_rrs lim (N.to_nat an) (view p) off = Some (rrs, endoff) ->
+  rrs_shallow lim (N.to_nat an) (view p) off ->
+  Forall (fun r => rr_type r <> 12) rrs ->
+  Forall (fun r => learn lim (view p) r <> LBad) rrs ->
+  exists u e', decodeAnswers p (Z.of_nat off) buffer e = (Ok (Z.of_nat endoff, u), e') /\
+               learn_all (cache_of_entry e) false (map (learn lim (view p)) rrs) = (cache_of_entry e', u).
+Proof. exact answers_spec. Qed.
+Print Assumptions C17_records_partial.
+
+Example C17_records_nonvacuous :
+  let p := of_bytes example_response in
+  wf p /\ bytes_okb (arr p) = true /\ (12 <= len p)%nat /\ u16_at (view p) 6 = Some 2 /\
+  exists rrs, ref_rrs NAME_LIMIT 2 (view p) 33 = Some (rrs, 67%nat) /\
+    rrs_shallow NAME_LIMIT 2 (view p) 33 /\
+    Forall (fun r => rr_type r <> 12) rrs /\
+    Forall (fun r => learn NAME_LIMIT (view p) r <> LBad) rrs /\
+    map (learn NAME_LIMIT (view p)) rrs =
+      [LCNAME [119;119;119;46;101;120;97;109;112;108;101;46;99;111;109]
+              [99;100;110;46;101;120;97;109;112;108;101;46;99;111;109] 60;
+       LA [99;100;110;46;101;120;97;109;112;108;101;46;99;111;109] [10;0;0;1] 60] /\
+    fst (decodeAnswers p 33 (mkSlice (repeat 0 64) 0) (new_entry [])) = Ok (67%Z, true).
+Proof. exact answers_spec_nonvacuous. Qed.
+Print Assumptions C17_records_nonvacuous.
 
 (* ------------------------------------------------------------------ *)
 (* NameEntry.Merge: the learned attributes are Name, Model, OS, Manufacturer
